@@ -11,7 +11,7 @@
 Require Import V.Base.MachineInt V.Generated.GenConsts V.Model.Descriptor V.Model.LogBase V.Model.Appender
                V.Model.ExclAppender V.Model.Publication V.Model.ExclPublication
                V.Proofs.AppenderProofs V.Proofs.PublicationProofs V.Proofs.BulkProofs V.Proofs.C04Proofs
-               V.Proofs.ExclPublicationProofs V.Proofs.C04Statements.
+               V.Proofs.ExclPublicationProofs V.Proofs.C04Statements V.Oracle.C04Oracle V.Proofs.C04OracleProofs.
 Open Scope Z_scope.
 
 (* every reachable state satisfies the invariant the other statements are proved from *)
@@ -170,3 +170,73 @@ Theorem C04_total_exclusive : forall m rv x, xreachable m rv x -> forall o, op_o
   end.
 Proof. exact c04x_total. Qed.
 Print Assumptions C04_total_exclusive.
+
+(* the constructor the repository had before fixes/C04-excl-new.diff does not put the publication into a state satisfying the
+   invariant: on a log handed over at term count 2 it reports position 0 instead of 8192 and its first offer is written to
+   partition 0 (the real tail, in partition 2, does not move) *)
+Theorem C04_exclusive_new_asis_refuted :
+  let l := handed_over 0 4096 512 11 22 2 0 in
+  exists x, xpub_new_asis l = Ok x /\ xpub_position Debug x = Ok 0 /\ x_idx x = 0 /\
+    (exists x1, xpub_new l = Ok x1 /\ xpub_position Debug x1 = Ok 8192 /\ x_idx x1 = 2) /\
+    let x' := fst (xpub_step Debug harness_rv (fst (xpub_step Debug harness_rv x (SetLimit 100000))) (Offer [1; 2; 3])) in
+    tail (xlog x') 2 = tail l 2 /\ tail (xlog x') 0 <> tail l 0 /\ part (xlog x') 0 <> [].
+Proof. exact xpub_new_asis_wrong. Qed.
+Print Assumptions C04_exclusive_new_asis_refuted.
+
+(* ---- the oracle (Oracle/C04Oracle.v), which judges the implementation's observations, on the model's own observations ----
+   flow part (results, positions, term count, tail counters): true for every offer / claim / bulk offer from every state
+   satisfying the invariant, whatever the previous observation's result r0 was *)
+Theorem C04_oracle_flow : forall m rv s n off o s0 r0 n0 off0,
+  pub_inv n off s -> op_ok (ps_log s) o -> is_append o = true ->
+  flow_append (geom_of (ps_log s) n0 off0) (env_of s) (kind_of o) (op_len o)
+              (pub_obs m s0 s r0) (pub_obs m s (fst (pub_step m rv s o)) (snd (pub_step m rv s o))) = true.
+Proof. exact oracle_flow_shared. Qed.
+Print Assumptions C04_oracle_flow.
+
+(* the complete per-step predicate (flow and bytes) on every refusal *)
+Theorem C04_oracle_refusal : forall m rv s n off o s0 r0 n0 off0 e,
+  pub_inv n off s -> op_ok (ps_log s) o -> is_append o = true ->
+  snd (pub_step m rv s o) = Err e -> (e = BackPressured \/ e = NotConnected \/ e = Closed \/ e = TooLong) ->
+  holds_append (geom_of (ps_log s) n0 off0) (env_of s) (kind_of o) (op_len o)
+               (pub_obs m s0 s r0) (pub_obs m s (fst (pub_step m rv s o)) (snd (pub_step m rv s o))) = true.
+Proof. exact oracle_step_refusal. Qed.
+Print Assumptions C04_oracle_refusal.
+
+(* bytes part on the end-of-term trip: the changed words are exactly those of one padding frame (none when the term was
+   exactly full) and nothing in the other partitions.
+   Partial: it assumes the active partition's content ends where its tail counter says (`content_ok`: true at hand-over, see the
+   example below, and kept as long as the driver cleans a partition before the log rotates into it); the bytes part for
+   accepted appends (`appended_words`: every changed word inside [tail, tail + required)) and for the exclusive publication,
+   and the composition over whole histories
+     forall ops, clean_before_reuse ops -> holds_history g (map oop_of ops) (pub_trace m rv (pub_init (handover_log h)) ops) = true
+   are not proved; those predicates are evaluated on the implementation's observations and compared with the model on every run. *)
+Theorem C04_oracle_trip_words_partial : forall m rv s n off o s0 r0 n0 off0 e,
+  pub_inv n off s -> content_ok (ps_log s) n off -> op_ok (ps_log s) o -> is_append o = true ->
+  snd (pub_step m rv s o) = Err e -> fst (pub_step m rv s o) <> s ->
+  tripped_words (geom_of (ps_log s) n0 off0) (o_dump (pub_obs m s0 s r0))
+                (o_dump (pub_obs m s (fst (pub_step m rv s o)) (snd (pub_step m rv s o)))) = true.
+Proof. exact oracle_words_trip. Qed.
+Print Assumptions C04_oracle_trip_words_partial.
+
+(* ---- the hypotheses are satisfiable: a log handed over 64 bytes before the end of the very last term, initial term id
+   i32::MAX (so every term id has wrapped), a limit just beyond the end of the position space ---- *)
+Example C04_last_term_example :
+  let h := mkHandover 2147483647 65536 4096 11 22 (two31 - 1) 65472 in
+  let ops := [SetLimit (65536 * two31 + 100); SetConnected true] in
+  let s := pub_run Debug harness_rv (pub_init (handover_log h)) ops in
+  handover_ok h /\ hist_ok (handover_log h) (ops ++ [Offer (payload 1 100); Claim 8]) /\
+  content_ok (ps_log s) (two31 - 1) 65472 /\
+  pub_position Debug s = Ok (65536 * two31 - 64) /\
+  snd (pub_step Debug harness_rv s (Offer (payload 1 100))) = Err MaxPositionExceeded /\
+  pub_position Debug (fst (pub_step Debug harness_rv s (Offer (payload 1 100)))) = Ok (65536 * two31) /\
+  snd (pub_step Debug harness_rv s (Claim 8)) = Ok (65536 * two31) /\
+  snd (pub_step Debug harness_rv (fst (env_step s (SetLimit (65536 * two31 - 64)))) (Claim 64)) = Err MaxPositionExceeded /\
+  snd (pub_step Debug harness_rv (fst (env_step s (SetLimit (65536 * two31 - 64)))) (Claim 0)) = Err BackPressured.
+Proof.
+  cbv zeta. split; [|split; [|split]].
+  - unfold handover_ok, geometry_ok. cbn [h_init h_tlen h_mtu h_n0 h_off0].
+    split; [split; [exists 16; split; [lia|reflexivity]|]|]; vm_compute; repeat split; discriminate.
+  - unfold hist_ok. repeat (constructor; [vm_compute; try exact I; repeat split; discriminate|]). constructor.
+  - split; [vm_compute; reflexivity|]. unfold spans_nonneg. vm_compute. repeat constructor; discriminate.
+  - repeat split; vm_compute; reflexivity.
+Qed.
